@@ -71,10 +71,10 @@ Proof.
     + intros Hnd. now rewrite (to_set_nodup_id _ Hnd).
 Qed.
 
-Lemma junk_trigger_after e mb item new l :
-  junk_trigger e mb item new (set_flags l (calculate_new_flags (lk_flags l) new item)) = None.
+Lemma will_move_after e mb item new l :
+  will_move e mb item new (set_flags l (calculate_new_flags (lk_flags l) new item)) = false.
 Proof.
-  unfold junk_trigger, junk_added, nonjunk_added. simpl. rewrite calc_idem.
+  unfold will_move, junk_added, nonjunk_added. simpl. rewrite calc_idem.
   now rewrite !andb_negb_l.
 Qed.
 
@@ -152,22 +152,29 @@ Qed.
 
 (** ---------- UID STORE ---------- *)
 
-Lemma no_trigger_row e ls mb l0 item new stmt :
-  junk_trigger e mb item new l0 = None ->
-  store_row e ls mb l0 item new stmt = stmt ls (calculate_new_flags (lk_flags l0) new item).
+(** a row that is not re-filed is updated in place - also when Junk is added
+    inside Spam / NonJunk inside INBOX (MoveMessageToMailbox reports "not moved") *)
+Lemma no_move_row e ls mb l0 item new :
+  will_move e mb item new l0 = false ->
+  store_row e ls mb l0 item new = upd_uid mb (lk_uid l0) ls (calculate_new_flags (lk_flags l0) new item).
 Proof.
-  unfold junk_trigger, store_row. cbv zeta.
-  destruct (junk_added _ _); [discriminate|]. destruct (nonjunk_added _ _); [discriminate|]. reflexivity.
+  unfold will_move, store_row, move. cbv zeta.
+  destruct (junk_added _ _).
+  - intros H. apply negb_false_iff in H. now rewrite H.
+  - destruct (nonjunk_added _ _); [|reflexivity].
+    intros H. apply negb_false_iff in H. now rewrite H.
 Qed.
 
 Lemma store_uid_one_spec e ls mb item new u :
   uniq_keys ls ->
-  (forall l0, find_key ls mb u = Some l0 -> junk_trigger e mb item new l0 = None) ->
+  (forall l0, find_key ls mb u = Some l0 -> will_move e mb item new l0 = false) ->
   store_uid_one e mb item new ls u = spec_update ls mb [u] item new.
 Proof.
   intros Hu Ht. unfold store_uid_one. destruct (find_key ls mb u) as [l0|] eqn:Ef.
-  - rewrite (no_trigger_row _ _ _ _ _ _ _ (Ht l0 eq_refl)).
-    unfold upd_uid. rewrite spec_update_upd. apply map_ext_in. intros l Hl.
+  - rewrite (no_move_row _ _ _ _ _ _ (Ht l0 eq_refl)).
+    assert (Hk0 : lk_uid l0 = u).
+    { apply find_some in Ef. destruct Ef as [_ Hk]. apply has_key_lkey in Hk. now injection Hk. }
+    rewrite Hk0. unfold upd_uid. rewrite spec_update_upd. apply map_ext_in. intros l Hl.
     unfold upd, has_key, in_mbox, memZ. simpl. rewrite orb_false_r.
     destruct ((lk_mbox l =? mb) && (lk_uid l =? u)) eqn:E; [|reflexivity].
     apply find_some in Ef. destruct Ef as [Hin Hk].
@@ -181,7 +188,7 @@ Qed.
 
 Lemma store_uid_fold e mb item new : forall uids ls,
   uniq_keys ls ->
-  (forall u l0, In u uids -> find_key ls mb u = Some l0 -> junk_trigger e mb item new l0 = None) ->
+  (forall u l0, In u uids -> find_key ls mb u = Some l0 -> will_move e mb item new l0 = false) ->
   fold_left (store_uid_one e mb item new) uids ls = spec_update ls mb uids item new.
 Proof.
   induction uids as [|u uids IH]; intros ls Hu Ht; simpl.
@@ -194,21 +201,16 @@ Proof.
     + intros u' l0' Hin Hf. rewrite spec_update_upd, find_key_upd in Hf.
       destruct (find_key ls mb u') as [l0|] eqn:Ef; [|discriminate]. simpl in Hf. injection Hf as <-.
       unfold upd. destruct (in_mbox mb l0 && memZ (lk_uid l0) [u]).
-      * apply junk_trigger_after.
+      * apply will_move_after.
       * apply (Ht u' l0); auto. now right.
 Qed.
 
-Lemma junk_class_none e mb item new rows plain :
-  junk_class e mb item new rows plain = None -> forall l, In l rows -> junk_trigger e mb item new l = None.
+Lemma junk_class_none e mb item new rows :
+  junk_class e mb item new rows = None -> forall l, In l rows -> will_move e mb item new l = false.
 Proof.
-  unfold junk_class. cbv zeta.
-  destruct (existsb _ _) eqn:E1; [discriminate|].
-  destruct (existsb (fun t => match t with Some true => true | _ => false end) _) eqn:E2; [discriminate|].
-  intros _ l Hl.
-  rewrite <- not_true_iff_false, existsb_exists in E1, E2.
-  destruct (junk_trigger e mb item new l) as [[|]|] eqn:Et; [| |reflexivity].
-  - exfalso. apply E2. exists (Some true). split; [|reflexivity]. rewrite <- Et. now apply in_map.
-  - exfalso. apply E1. exists (Some false). split; [|reflexivity]. rewrite <- Et. now apply in_map.
+  unfold junk_class. destruct (existsb _ rows) eqn:E; [discriminate|]. intros _ l Hl.
+  rewrite <- not_true_iff_false, existsb_exists in E.
+  destruct (will_move e mb item new l) eqn:Ew; [|reflexivity]. exfalso. apply E. now exists l.
 Qed.
 
 Lemma rows_of_uids_In ls mb uids u l0 :
@@ -219,9 +221,20 @@ Qed.
 
 Theorem store_uid_exact e ls mb q item new :
   uniq_keys ls ->
-  junk_class e mb item new (rows_of_uids ls mb (expand_uid ls mb q)) false = None ->
+  junk_class e mb item new (rows_of_uids ls mb (expand_uid ls mb q)) = None ->
   store_uid e ls mb q item new = spec_update ls mb (expand_uid ls mb q) item new.
 Proof.
   intros Hu Hc. unfold store_uid. apply store_uid_fold; [assumption|].
-  intros u l0 Hin Hf. apply (junk_class_none _ _ _ _ _ _ Hc). eapply rows_of_uids_In; eauto.
+  intros u l0 Hin Hf. apply (junk_class_none _ _ _ _ _ Hc). eapply rows_of_uids_In; eauto.
+Qed.
+
+(** plain STORE: the same loop over the UIDs the sequence set denotes when the
+    command starts *)
+Theorem store_seq_exact e ls mb q item new :
+  uniq_keys ls ->
+  junk_class e mb item new (rows_of_uids ls mb (seq_targets ls mb q)) = None ->
+  store_seq e ls mb q item new = spec_update ls mb (seq_targets ls mb q) item new.
+Proof.
+  intros Hu Hc. unfold store_seq. apply store_uid_fold; [assumption|].
+  intros u l0 Hin Hf. apply (junk_class_none _ _ _ _ _ Hc). eapply rows_of_uids_In; eauto.
 Qed.
